@@ -60,8 +60,24 @@ class Check:
         self.errors = []
         self.samples = []
         self.canaries = []           # (name, refuted: bool)
+        self.canaries_skipped = []   # canaries whose source pattern no longer occurs in the tree (not an error: the code was edited)
         self.refused = []
         self.known = load_known(pid)
+
+    def canary(self, name, refuted, unit_out=None):
+        """record the outcome of a vacuity canary (in-memory mutant of the real source).  A canary whose source pattern is
+        absent from the current tree cannot be applied: it is listed as skipped - the edit that removed the pattern is
+        judged by the obligations, not by the canary."""
+        text = ""
+        if unit_out is not None:
+            try:
+                text = str(unit_out[1] if unit_out[0] != "ok" else unit_out[1].get("error", ""))
+            except Exception:
+                text = ""
+        if "canary:" in text and ("not found in" in text or "closure variables" in text):
+            self.canaries_skipped.append(name)
+            return
+        self.canaries.append((name, refuted))
 
     # -- results
     def add(self, res):
@@ -160,6 +176,7 @@ class Check:
             "samples": self.samples[:8] or [r["name"] for r in self.results[:5]],
             "canaries_refuted": sum(1 for c in self.canaries if c[1]),
             "canaries": [{"name": c[0], "refuted": c[1]} for c in self.canaries],
+            "canaries_skipped_pattern_absent": self.canaries_skipped,
             "known_findings": [{"id": i, "what": w} for i, w in self.known_hit],
             "undecided": self.undecided[:50],
             "refused": self.refused[:50],
@@ -191,6 +208,8 @@ class Check:
             print(f"UNDECIDED property={self.pid} obligation={u}")
         for e in self.errors[:20]:
             print(f"CHECKER-ERROR property={self.pid} {e}")
+        for c in self.canaries_skipped:
+            print(f"NOTE property={self.pid} canary not applicable (its source pattern is absent from the current tree): {c}")
         bad_canaries = [c[0] for c in self.canaries if not c[1]]
         for c in bad_canaries:
             print(f"CHECKER-ERROR property={self.pid} canary not refuted (engine unsound?): {c}")
